@@ -39,6 +39,9 @@ func c06kw(g *hgen) Val {
 		}
 	}
 	g.uniq++
+	if r.Bool(0.1) {
+		return vStr(" k" + itoa(g.uniq))
+	}
 	return vStr("k" + itoa(g.uniq))
 }
 
@@ -55,6 +58,10 @@ func c06op(g *hgen) Val {
 		return Val{K: "uop", S: []string{"~=", "has", "=>"}[r.Intn(3)]}
 	case 4:
 		return vOp([]int{0, 7, 200}[r.Intn(3)])
+	case 5:
+		if r.Bool(0.5) {
+			return Val{K: "fop", S: "f" + itoa(r.Intn(2))}
+		}
 	}
 	return vOp(r.Range(1, 6))
 }
@@ -78,10 +85,23 @@ func c06ex(g *hgen, stacks []int, conds []int) Val {
 		return Val{K: "strer", S: "se" + itoa(r.Intn(9))}
 	}
 	g.uniq++
+	if r.Bool(0.15) {
+		// blanks at the edges are part of the value
+		return vStr([]string{" lead", "trail ", "\ttab", "nl\n", "  "}[r.Intn(5)] + []string{"", " "}[r.Intn(2)])
+	}
 	return vStr([]string{"e", "two words ", "Ünï"}[r.Intn(3)] + itoa(g.uniq))
 }
 
+// flipGen: generation-time text of the flip operators
+var flipGen = map[string]string{}
+
 func (c06) Gen(r *Rng, tier string, run int) *Trace {
+	for k := range flipGen { // order-free: cleared
+		delete(flipGen, k)
+	}
+	for k := range flipNow { // order-free: cleared
+		delete(flipNow, k)
+	}
 	g := newHgen(r, "C06")
 	s0 := g.addStack(g.kind(), 0)
 	s1 := g.addStack(g.kind(), 0)
@@ -161,8 +181,17 @@ func (c06) Gen(r *Rng, tier string, run int) *Trace {
 		case 18:
 			g.emit(Op{Obj: c, M: "Init"}, false)
 		case 19:
-			// change the nested stack: the rendering is compositional
-			g.emit(Op{Obj: s0, M: "Push", Args: []Val{g.uv()}}, false)
+			if r.Bool(0.5) {
+				// a user-defined operator changes its text after it was accepted:
+				// it is still "present"
+				name := "f" + itoa(r.Intn(2))
+				text := []string{"", "~" + name, "=~"}[r.Intn(3)]
+				g.tr.Tasks[0] = append(g.tr.Tasks[0], Op{Obj: -1, M: "world.setop", Args: []Val{vStr(name), vStr(text)}})
+				flipGen[name] = text
+			} else {
+				// change the nested stack: the rendering is compositional
+				g.emit(Op{Obj: s0, M: "Push", Args: []Val{g.uv()}}, false)
+			}
 		}
 	}
 	return g.tr
@@ -175,7 +204,12 @@ type c06state struct {
 	accepted, rejected, valid bool
 }
 
-func (c06) Begin(x *Exec) { x.state = &c06state{histState: newHistState(x)} }
+func (c06) Begin(x *Exec) {
+	for k := range flipNow { // order-free: cleared
+		delete(flipNow, k)
+	}
+	x.state = &c06state{histState: newHistState(x)}
+}
 
 func (c06) AfterSetup(x *Exec) {
 	// the constructor is the first call of the history: judge it at once
@@ -202,6 +236,21 @@ func (c06) AfterOp(x *Exec, task, idx int, op Op, out Outcome) {
 	st := x.state.(*c06state)
 	if out.Panic != "" {
 		x.fail("panic:"+op.M, fmt.Sprintf("%s panicked: %s", op, out.Panic))
+		return
+	}
+	if op.M == "world.setop" {
+		if len(op.Args) == 2 {
+			flipNow[op.Args[0].S] = op.Args[1].S
+		}
+		// every Condition holding that operator is looked at again
+		for i, m := range st.m.C {
+			if m != nil && m.Live {
+				if d := cmpCond(x, i, m, c06keys); d != "" {
+					x.fail("model-mismatch:"+mismatchSite(Op{M: "operator-text-change"}, d), fmt.Sprintf("after the text of user operator %s became %q: %s: %s", op.Args[0].S, op.Args[1].S, x.w.objs[i].name, d))
+					return
+				}
+			}
+		}
 		return
 	}
 	before := st.m
